@@ -421,9 +421,11 @@ STUB_RULES = [
     # std::string, libstdc++ SSO layout {char* p; size_t len; union{char buf[16]; size_t cap;}}: append within the 15-byte
     # local buffer is modelled field by field; anything that would allocate is a reported bound
     (r'_ZNSt7__cxx1112basic_stringIcSt11char_traitsIcESaIcEE9_M_appendEPKcm',
-     'uint64_t len = a0->f1; if (len + a2 > 15) { yk_string_unmodelled(); } uint8_t* p = (uint8_t*)a0->f0.f0; '
-     'for (unsigned i = 0; i < 16; i++) { if (i < a2) p[len + i] = ((uint8_t*)a1)[i]; } a0->f1 = len + a2; p[len + a2] = 0; return a0;'),
-    (r'_ZNSt7__cxx1112basic_stringIcSt11char_traitsIcESaIcEE(12_M_constructEmc|14_M_replace_auxEmmmc|9_M_mutateEmmPKcm|10_M_replaceEmmPKcm|9_M_createERmm|9_M_assignERKS4_|7reserveEm)',
+     'yk_str_append((struct yk_str*)a0, (const uint8_t*)a1, a2); return a0;'),
+    (r'_ZNSt7__cxx1112basic_stringIcSt11char_traitsIcESaIcEE7reserveEm', 'yk_str_reserve((struct yk_str*)a0, a1);'),
+    (r'_ZNSt7__cxx1112basic_stringIcSt11char_traitsIcESaIcEE10_M_replaceEmmPKcm',
+     'yk_str_assign((struct yk_str*)a0, a1, a2, (const uint8_t*)a3, a4); return a0;'),
+    (r'_ZNSt7__cxx1112basic_stringIcSt11char_traitsIcESaIcEE(12_M_constructEmc|14_M_replace_auxEmmmc|9_M_mutateEmmPKcm|9_M_createERmm|9_M_assignERKS4_)',
      'yk_string_unmodelled(); RETZERO'),
     (r'yk_.*', None),
     (r'yakushima_verif_hook|yakushima_verif_event', None),
@@ -448,7 +450,10 @@ class Cx:
 
 
 class Translator:
+    nsite = 0
+
     def __init__(t, mod, opts=None):
+        t.sites = []
         t.mod = mod
         t.opts = opts or {}
         t.used = set()       # referenced @symbols (functions and globals)
@@ -699,10 +704,18 @@ class Translator:
                         try:
                             ty = P(tokenize(mm.group(2)), m).type()
                             n0 = newty[mm.group(1)][0]
-                            if ty.k in ('named', 'struct') and (n0 is None or (m.size_align(ty)[0] > 0 and n0 % m.size_align(ty)[0] == 0)):
+                            if ty.k in ('named', 'struct', 'ptr') and (n0 is None or (m.size_align(ty)[0] > 0 and n0 % m.size_align(ty)[0] == 0)):
                                 newty[mm.group(1)][1] = ty
                         except Exception:
                             pass
+        # unit-level hints: a constant-size operator new whose result is never cast at the allocation site (std::deque nodes)
+        for k_, v_ in newty.items():
+            if v_[1] is None and v_[0] is not None and v_[0] in (t.opts.get('new_hints') or {}):
+                want = t.opts['new_hints'][v_[0]]
+                for nm in m.named:
+                    if want in nm:
+                        v_[1] = Ty('named', name=nm)
+                        break
         for lab, ins in blocks:
             st = []
             code[lab] = st
@@ -1081,7 +1094,7 @@ class Translator:
                         kind = int(re.search(r'(\d+)ULL', cargs[0][1]).group(1))
                         if kind in (2, 3, 4):
                             flags[lab].add('sync')
-                        if kind in (0, 1) and not t.opts.get('all_hooks') and not coro:
+                        if kind in (0, 1) and not t.opts.get('all_hooks') and not t.opts.get('intruder') and not coro:
                             continue   # plain mode without watch counters: LOAD/STORE hooks carry no meaning for one thread
                         st.append(('hook', kind, cargs[1][1] if len(cargs) > 1 else '0'))
                         continue
@@ -1114,6 +1127,31 @@ class Translator:
                     raise NotImplementedError(op + ' :: ' + l)
         order = [lab for lab, _ in blocks]
         pos = {lab: i for i, lab in enumerate(order)}
+        # fault blocks: a block that only calls a noreturn throw/terminate stub and ends in `unreachable` (std::array::at range
+        # checks, vector length checks ...).  A conditional branch into such a block becomes a straight-line
+        # assert+assume: CBMC otherwise keeps one more conjunct in the path guard for the rest of the run for every
+        # such check, and guards that are merged at the many exits of a coroutine then grow without bound.
+        def is_fault_block(lab):
+            if phis.get(lab):
+                return False
+            c_ = code[lab]
+            if not c_ or c_[-1] != 'yk_unreachable();':
+                return False
+            for s_ in c_[:-1]:
+                if not (isinstance(s_, tuple) and s_[0] == 'call' and s_[1] is None and
+                        re.match(r'f_(_ZSt\d+__throw_|_ZSt9terminatev|__cxa_pure_virtual|abort\b)', s_[2])):
+                    return False
+            return len(c_) >= 2
+        fb = set(l_ for l_ in order if is_fault_block(l_))
+        if fb:
+            for lab in order:
+                c_ = code[lab]
+                if c_ and isinstance(c_[-1], tuple) and c_[-1][0] == 'cbr':
+                    _, cnd, a_, b_ = c_[-1]
+                    if a_ in fb and b_ not in fb:
+                        c_[-1:] = ['yk_fault_if((uint8_t)(%s));' % cnd, ('goto', b_)]
+                    elif b_ in fb and a_ not in fb:
+                        c_[-1:] = ['yk_fault_if((uint8_t)!(%s));' % cnd, ('goto', a_)]
         info = dict(name=raw(name), cname=cname, blocks=len(blocks), loops=[])
         t.fninfo[cname] = info
         t.emit_fn(name, cname, sig, ret, args, order, pos, code, phis, decl, flags, coro, info)
@@ -1221,7 +1259,21 @@ class Translator:
                     elif s[0] == 'hook':
                         if coro:
                             nres[0] += 1
-                            o.append('  %s__pc = %dU; if (yk_preempt(%d, (const void*)%s)) return 1; R_%d: ;' % (cname, nres[0], s[1], s[2], nres[0]))
+                            t.nsite += 1
+                            t.sites.append((t.nsite, cname, int(s[1])))
+                            o.append('  %s__pc = %dU; if (yk_preempt_s(%d, (const void*)%s, %dU)) return 1; R_%d: ;' % (cname, nres[0], s[1], s[2], t.nsite, nres[0]))
+                        elif t.opts.get('intruder'):
+                            # intruder mode (kind S, two context switches): plain code; at ONE hook site (fixed per query) the
+                            # other thread's whole operation is called from inside the hook
+                            t.nsite += 1
+                            t.sites.append((t.nsite, cname, int(s[1])))
+                            if int(s[1]) in (0, 1):
+                                # the call of the other thread sits at the hook's call site (not inside a runtime function: B's own
+                                # hooks would make that function recursive for CBMC)
+                                o.append('  if (yk_fire_here(%dU)) { yk_fire_begin(%dU); yk_intruder_fn(); yk_fire_end(); } yk_hook(%d, (const void*)%s);' % (
+                                    t.nsite, t.nsite, s[1], s[2]))
+                            else:
+                                o.append('  yk_hook(%d, (const void*)%s);' % (s[1], s[2]))
                         else:
                             o.append('  yk_hook(%d, (const void*)%s);' % (s[1], s[2]))
                 else:
@@ -1364,19 +1416,19 @@ def translate(text, roots, opts=None):
             t.used = set()
             t.co_used = set()
             t.translate_fn(n, coro=is_co, prefix=prefix)
-            for u in t.used:
+            for u in sorted(t.used):          # sorted: site ids / emission order must not depend on set iteration order
                 if u in t.co_used and is_co:
                     continue
                 if is_co and u in mod.defs and u in hooky:
                     atomic_callees.add(raw(u))
                 work.append((u, '', False))
-            for u in t.co_used:
+            for u in sorted(t.co_used):
                 work.append((u, prefix, True))
         elif n in mod.globals:
             t.used = set()
             gl_text[n] = t.emit_global(n)
             gdone.append(n)
-            work.extend((u, '', False) for u in t.used)
+            work.extend((u, '', False) for u in sorted(t.used))
         elif n in mod.decls:
             pass
         else:
@@ -1490,7 +1542,7 @@ def translate(text, roots, opts=None):
             seen.add(g)
             stack.extend(t.calls.get(g, ()))
     info = dict(recursive=sorted('f_' + san(x) for x in rec), address_taken=sorted('f_' + san(x) for x in t.addr_taken), functions=sorted(raw(x) for x in done_names if x in mod.defs),
-                coroutine_clones=sorted('%s%s' % (k[1], raw(k[0])) for k in done if k[1]), atomic_callees=sorted(atomic_callees),
+                sites=[list(x) for x in t.sites], coroutine_clones=sorted('%s%s' % (k[1], raw(k[0])) for k in done if k[1]), atomic_callees=sorted(atomic_callees),
                 externals=sorted(raw(x) for x in done_names if x in mod.decls and x not in mod.defs),
                 missing=sorted(set(missing)), loops=loops, cuts=t.cut_hit,
                 ir_lines={raw(x): len(mod.defs[x]) for x in done_names if x in mod.defs})
